@@ -13,11 +13,13 @@ def run(ctx):
     else:
         if not os.environ.get("VERIF_SKIP_MC"):  # developer switch used by the mutant self-tests
             r0 = ctx.model_check("state", "MC_WorldState", "MC_WorldState_cov.cfg", coverage=True, timeout=900)
-            ctx.check_coverage(r0, ["SetBalance", "SetValue", "DeleteValue", "InitContract", "Touch", "GetSnapshot", "Reset",
+            ctx.check_coverage(r0, ["SetBalance", "SetValue", "DeleteValue", "InitContract", "SetBlock", "Deploy", "Accept", "Touch", "GetSnapshot", "Reset",
                                     "ClearCache", "Flush", "Reload"])
-            # every history (no bound) over 2 accounts x 1 storage key x balance 0..1 x contract flag x 1 snapshot slot
-            ctx.model_check("state", "MC_WorldState", "MC_WorldState.cfg",
+            # the full alphabet (block flag, contract deployment and acceptance) to bounded depth
+            ctx.model_check("state", "MC_WorldState", "MC_WorldState_quick.cfg", constants={"MaxOps": ctx.pick(5, 7)},
                             timeout=ctx.pick(900, 3000))
+            # every history (no bound) over 2 accounts x 1 storage key x balance 0..1 x contract flag x 1 snapshot slot
+            ctx.model_check("state", "MC_WorldState", "MC_WorldState.cfg", timeout=ctx.pick(900, 3000))
             ctx.exhaustive = not ctx.quick()  # thorough also replays the complete BFS set of depth 2
         allb = ctx.behaviours("state", "Gen_WorldState", "Gen_WorldState.cfg", constants={"MaxOps": wl, "Depth": wl},
                               simulate="num=%d" % ctx.pick(600, 1500), depth=wl + 1, seed=ctx.seed, timeout=ctx.pick(900, 3000))
@@ -33,10 +35,10 @@ def run(ctx):
     recs = ctx.go_replay("worldstate", "TestReplay", inp, timeout=ctx.pick(900, 3000), env=env, shards=ctx.pick(2, 4))
     ctx.absorb(recs)
     return ctx.finish(
-        rule="a behaviour = one TLC random walk of %d calls (SetBalance/SetValue/DeleteValue/InitContractAccount/"
+        rule="a behaviour = one TLC random walk of %d calls (SetBalance/SetValue/DeleteValue/InitContractAccount/SetBlock/DeployContract/AcceptContract/"
              "GetAccountState on 3 accounts x 2 storage keys, GetSnapshot into 2 slots, Reset, ClearCache, Flush, reload from "
              "the state hash) on the real world state; after every call all accounts are read back through the state "
              "and through every snapshot, hashes of equal contents are compared; distinct by call sequence; "
              "non-trivial if it contains a reset, reload or clear-cache" % wl,
-        assumptions=["MapDB backend", "accounts without deposits, code or API info; contract flag via InitContractAccount",
+        assumptions=["MapDB backend", "accounts without deposits or API info; contract accounts via InitContractAccount with pending/current contract code (2 code ids) and the blocked state bit",
                      "no validator/extension/BTP state (nil)", "sequential use of one world state"])
